@@ -22,18 +22,16 @@ def run(res, tier):
     quick = tier == "quick"
     kc.model_check(res, maxcyc=1 if quick else 2)
     with scratch("c07_") as sdir:
-        c = kc.Corpus(res, "c07")
-        c.add(kc.ff_designs())
-        c.add(kc.rand_designs("c07r", 25 if quick else 400,
-                              opts={"regs": 1.6, "arrays": 0.6, "structs": 0.4, "nets": 0.6}))
-        c.load(sdir)
-        c.run_modes(kernel.MODES, cycles=5 if quick else 10, seeds=(0,), recheck=False)
-        c.run_ff_perms(limit=24 if quick else 120, cycles=4 if quick else 8)
-        verdicts = c.validate("C07")
-        c.canaries(verdicts)
+        designs = kc.ff_designs() + kc.rand_designs("c07r", 25 if quick else 400,
+                                                    opts={"regs": 1.6, "arrays": 0.6, "structs": 0.4, "nets": 0.6})
+
+        def drive(c):
+            c.run_modes(kernel.MODES, cycles=5 if quick else 10, seeds=(0,), recheck=False)
+            c.run_ff_perms(limit=24 if quick else 120, cycles=4 if quick else 8)
+        c, ndesigns = kc.run_chunked(res, "c07", "C07", sdir, designs, len(designs) if quick else 60, drive)
         res.sample({"design": c.djs[4]["name"], "source": c.designs[4].py_source()})
         ffev = [e for e in c.traces[-1]["ev"] if e["k"] in ("ff", "flip")][:6]
         res.sample({"mode": c.traces[-1]["mode"], "edge_events": ffev})
-    res.note("designs", len(c.designs))
+    res.note("designs", ndesigns)
     res.note("rule", "a case = (design, pass group | forced permutation of the update_ff blocks)")
     res.assume("generated designs; registers are whole top-level signals (pymtl3 rejects anything else)")
